@@ -517,4 +517,76 @@ func c32(r *Run) {
 	}
 	r.guardedBy(w, lockSpec{Rule: "C32.R3", Owner: pkgPubsub + ".MessageBuffer", Fields: []string{"pending", "pendingSize", "closed"}, Mutex: "l", Pkgs: []string{pkgPubsub},
 		HeldByCaller: map[string]int{MB + "clearPending": 2}, MinSites: 8})
+
+	// R4: Timer.Stop waits for the timer goroutine; the buffer's timer handler takes the buffer lock, so
+	// stopping the timer on a path on which that lock may still be held can wait forever (close at any point).
+	r.rule("C32.R4", "K4", "the flush timer, whose handler takes the buffer lock, is never stopped (Stop waits for the handler) on a path that may hold that lock", 2)
+	nm := r.fn(w, "C32.R4", pkgPubsub+".NewMessageBuffer")
+	handlerLocks := ""
+	if nm != nil {
+		for _, c := range callsTo(nm, func(n string) bool { return strings.HasSuffix(n, "utils/timer.NewTimer") }) {
+			lit := literalArg(c, 0)
+			if lit == nil {
+				r.missing("C32.R4", "NewMessageBuffer:timer-handler", "the timer handler is not a function literal; cannot tell which locks it takes")
+				continue
+			}
+			for _, f := range withNested(lit) {
+				eachInstr(f, func(ins ssa.Instruction) {
+					if ci, ok := ins.(ssa.CallInstruction); ok {
+						if k, op := lockOp(ci); op == "lock" || op == "rlock" {
+							if i := strings.LastIndex(k, "."); i >= 0 {
+								handlerLocks = k[i+1:]
+							}
+						}
+					}
+				})
+			}
+			r.ok("C32.R4", "NewMessageBuffer:timer-handler-lock", r.at(w, c), "the flush handler takes the buffer mutex '"+handlerLocks+"'")
+		}
+	}
+	stops := 0
+	for _, fn := range w.FnsInPkg(pkgPubsub) {
+		for _, st := range callsTo(fn, func(n string) bool { return strings.HasSuffix(n, "utils/timer.Timer).Stop") }) {
+			stops++
+			r.saw(fn)
+			held := ""
+			if handlerLocks != "" {
+				eachInstr(fn, func(ins ssa.Instruction) {
+					ci, ok := ins.(ssa.CallInstruction)
+					if !ok {
+						return
+					}
+					if _, isDefer := ins.(*ssa.Defer); isDefer {
+						return
+					}
+					k, op := lockOp(ci)
+					if (op != "lock" && op != "rlock") || !strings.HasSuffix(k, "."+handlerLocks) {
+						return
+					}
+					unlock := func(i ssa.Instruction) bool {
+						if _, isDefer := i.(*ssa.Defer); isDefer {
+							return false
+						}
+						c2, ok := i.(ssa.CallInstruction)
+						if !ok {
+							return false
+						}
+						k2, op2 := lockOp(c2)
+						return op2 == "unlock" && k2 == k
+					}
+					if ok, _ := pathExists(after(ins), isInstr(st), unlock, nil); ok {
+						held = k
+					}
+				})
+				if _, isHeld := map[string]bool{MB + "clearPending": true}[fnName(fn)]; isHeld {
+					held = "p0." + handlerLocks + " (held by every caller)"
+				}
+			}
+			r.check(held == "", "C32.R4", short(fnName(fn))+":timer-stopped-without-the-buffer-lock", r.at(w, st), "no path from an acquisition of the handler's lock reaches Timer.Stop without releasing it",
+				"Timer.Stop is reached with "+held+" held; Stop waits for the timer goroutine, whose handler blocks on that same lock when the flush timer has just fired, so "+short(fnName(fn))+" never returns and the queue is never closed")
+		}
+	}
+	if stops == 0 {
+		r.missing("C32.R4", "Timer.Stop", "no call to Timer.Stop found in the pubsub package")
+	}
 }
